@@ -146,10 +146,10 @@ def recurring_case(draw, brokers):
         j["defer_until"] = draw(st.integers(0, 4000)) / 1000
     if draw(st.integers(0, 3)) == 0:
         j["ttl"] = draw(st.sampled_from([30, 60]))
-    elif j["retries"] == 0 and draw(st.integers(0, 3)) == 0:
+    elif j["retries"] == 0 and "defer_until" not in j and draw(st.integers(0, 3)) == 0:
         # a time-to-live barely longer than the period: an iteration can still be running (and fail) after its own ttl has run
         # out - it was delivered in time, it completes, so it has exactly one successor like any other
-        j["ttl"] = p + 2.5  # (long enough to be delivered at its slot even after the broker's pickup latency)
+        j["ttl"] = p + 2.5  # (long enough to be delivered at its slot even after the broker's pickup latency; first slot = one period ahead)
         for a in att:
             if draw(st.booleans()):
                 a["sleep"] = draw(st.sampled_from([1.0, 3.0, 4.0]))
